@@ -562,6 +562,10 @@ func (env *SpecEnv) index(a, i SV) SV {
 					return SV{V: Select(arr, it), T: et}
 				}
 			}
+			if _, ok := et.Underlying().(*types.Slice); ok && et != nil {
+				// element of a nil slice of slices: unspecified (guarded by the spec); a nil slice stands in
+				return SV{V: SliceVal{Off: env.vc.idx(0), Len: env.vc.idx(0), Cap: env.vc.idx(0), IsNil: TTrue()}, T: et}
+			}
 			sfail("index of nil slice in spec")
 		}
 		if base, ok := env.vc.load(env.st, av.Base).(ArrVal); ok && len(base.E) == 0 && et != nil {
@@ -1389,6 +1393,30 @@ func (env *SpecEnv) call(x *ast.CallExpr, subs map[string]*SpecExpr) SV {
 				return SV{V: *b.FreshT, T: boolT}
 			}
 			return SV{V: TFalse(), T: boolT}
+		case "buf_len", "buf_at":
+			// contents of a bytes.Buffer: its length, its j-th unread byte
+			a := env.expr(x.Args[0], subs)
+			v := a.V
+			if p, ok := v.(PtrVal); ok && p.Cell != nil {
+				v = vc.load(env.st, p)
+			}
+			var b BufferObj
+			switch bv := v.(type) {
+			case BufferObj:
+				b = bv
+			case StructVal:
+				// a zero bytes.Buffer that has not been touched yet
+				b = BufferObj{Content: ConstArray(ArrSort(vc.intSort(64), vc.byteSort()), vc.zeroByte()), Base: vc.idx(0), Len: vc.idx(0), Fresh: true}
+			default:
+				sfail("%s: not a bytes.Buffer (%T)", id.Name, v)
+			}
+			if id.Name == "buf_len" {
+				l := b.Len
+				l.Signed = true
+				return SV{V: l, T: types.Typ[types.Int]}
+			}
+			j := env.idxTerm(env.expr(x.Args[1], subs))
+			return SV{V: Select(b.Content, vc.iAdd(b.Base, j)), T: types.Typ[types.Uint8]}
 		case "stream_len", "stream_at", "stream_err":
 			// what a reader value will still deliver: length, byte j, and the final error
 			as := env.args(x, subs)
